@@ -1,6 +1,7 @@
 import Frost.Driver.Ops
 import Frost.Ref.Toy
 import Frost.Ref.Suites
+import Frost.Ref.Bip340
 
 open Frost Frost.Driver Frost.Ref
 
@@ -16,6 +17,21 @@ def runLine (line : String) : String :=
     | "p256" => runOp p256Suite op a
     | "ristretto255" => runOp ristrettoSuite op a
     | "secp256k1" => runOp secp256k1Suite op a
+    | "secp256k1-tr" =>
+      if op = "bip340_verify" then
+        match a.get "pk" >>= parseHex, a.get "msg" >>= parseHex, a.get "sig" >>= parseHex with
+        | some pk, some msg, some sig => if bip340Verify pk msg sig then "ok" else "err Bip340Invalid culprits="
+        | _, _, _ => "bad-op"
+      else if op = "bip341_output" then
+        match a.get "vk" >>= parseHex, a.get "root" >>= pRoot with
+        | some vk, some root =>
+          match secp256k1.dec vk with
+          | some P => match bip341OutputKey P root with
+            | some q => "ok q=" ++ toHex q
+            | none => "err Bip341Failed culprits="
+          | none => "bad-op"
+        | _, _ => "bad-op"
+      else runTrOp trBase trParams op a
     | _ => "bad-suite"
   | _ => "bad-line"
 
